@@ -129,6 +129,8 @@ class Explorer:
         self.fp_grew = False
         self.abs_cache = {}       # tree digest -> abs json key
         self.use_ample = True
+        self.shared = None        # shared visited table (parallel exploration of ONE scenario)
+        self.wid, self._tok, self.n_visited = 0, 0, 0
         install_det_names()
         install_yaml_cache()
 
@@ -353,10 +355,19 @@ class Explorer:
                 else:
                     k = key()
                     if collect:
-                        if k in self.visited:
-                            outcome = "merged"
-                            break
-                        self.visited.add(k)
+                        if self.shared is not None:
+                            hk = hashlib.blake2b(repr(k).encode(), digest_size=16).digest()
+                            self._tok += 1
+                            tok = (self.wid, self._tok)
+                            if self.shared.setdefault(hk, tok) != tok:
+                                outcome = "merged"
+                                break
+                            self.n_visited += 1
+                        else:
+                            if k in self.visited:
+                                outcome = "merged"
+                                break
+                            self.visited.add(k)
                         self._note_abs(sched_taken, k[1])
                     default = last if last in runnable else runnable[0]
                     choice = default
@@ -491,3 +502,76 @@ class Explorer:
 def _json(x):
     import json
     return json.dumps(x, sort_keys=True, default=str)
+
+
+# --------------------------------------------------------------------------------------
+# one scenario, many processes: shared visited table + shared work queue
+# --------------------------------------------------------------------------------------
+def _par_worker(args):
+    sc, base, wid, visited, queue, pending, budget, pbound = args
+    ex = Explorer(sc, os.path.join(base, "w%d" % wid), max_runs=10 ** 9, preemption_bound=pbound)
+    ex.use_ample = False          # footprints are per process; no reduction in parallel mode
+    ex.shared, ex.wid = visited, wid
+    idle = 0
+    while True:
+        try:
+            prefix = queue.get(timeout=0.2)
+        except Exception:  # noqa  (queue.Empty through the manager)
+            if pending.value <= 0:
+                break
+            idle += 1
+            if idle > 3000:
+                break
+            continue
+        idle = 0
+        if budget.value <= 0:
+            ex.exhaustive = False
+            pending.value -= 1
+            continue
+        budget.value -= 1
+        stack = []
+        rec = ex.execute(tuple(prefix), stack)
+        for alt in stack:
+            pending.value += 1
+            queue.put(alt)
+        pending.value -= 1
+        if rec["outcome"] in ("done", "deadlock"):
+            k = _json({"o": rec["outcome"], "r": rec["results"], "f": rec["final"],
+                       "l": rec["locks"], "facts": rec["facts"]})
+            e = ex.outcomes.get(k)
+            if e is None:
+                ex.outcomes[k] = {"rec": rec, "count": 1}
+            else:
+                e["count"] += 1
+    shutil.rmtree(os.path.join(base, "w%d" % wid), ignore_errors=True)
+    return {"outcomes": ex.outcomes, "absstates": ex.absstates, "runs": ex.runs,
+            "steps": ex.steps, "visited": ex.n_visited, "exhaustive": ex.exhaustive,
+            "nondet": len(ex.nondeterminism), "start_abs": ex.start_abs}
+
+
+def explore_parallel(sc, base, procs=16, max_runs=60000, preemption_bound=None):
+    import multiprocessing
+    ctx = multiprocessing.get_context("fork")
+    mgr = ctx.Manager()
+    visited, queue = mgr.dict(), mgr.Queue()
+    pending, budget = mgr.Value("i", 1), mgr.Value("i", max_runs)
+    queue.put(())
+    os.makedirs(base, exist_ok=True)
+    with ctx.Pool(procs) as pool:
+        parts = pool.map(_par_worker, [(sc, base, w, visited, queue, pending, budget, preemption_bound)
+                                       for w in range(procs)], chunksize=1)
+    mgr.shutdown()
+    outcomes, absstates = {}, {}
+    for p in parts:
+        for k, e in p["outcomes"].items():
+            if k in outcomes:
+                outcomes[k]["count"] += e["count"]
+            else:
+                outcomes[k] = e
+        for k, v in p["absstates"].items():
+            absstates.setdefault(k, v)
+    return {"outcomes": outcomes, "absstates": absstates,
+            "runs": sum(p["runs"] for p in parts), "steps": sum(p["steps"] for p in parts),
+            "visited": sum(p["visited"] for p in parts),
+            "exhaustive": all(p["exhaustive"] for p in parts) and preemption_bound is None,
+            "nondet": sum(p["nondet"] for p in parts), "start_abs": parts[0]["start_abs"]}
